@@ -70,8 +70,15 @@ def gen_random(seed: int, n: int, long: bool) -> List[Dict[str, Any]]:
                     tk[pos].append(ev)
             if t >= 1 and rng.random() < (0.05 if long else 0.2):
                 tk["boot"] = sorted(rng.sample(range(w), rng.randint(1, w)))      # replacements started in this tick die while booting
+            if rng.random() < (0.02 if long else 0.08):
+                # an editor saving many files at once: a burst of reload requests in one interval
+                tk["sleep"] = tk["sleep"] + [["reload"]] * rng.randint(5, 9)
             ticks.append(tk)
-        out.append({"cfg": {"workers": w, "max_fails": mf, "slow_stop": True}, "ticks": ticks + [{}, {}], "family": "pm_long" if long else "pm_random"})
+        scn = {"cfg": {"workers": w, "max_fails": mf, "slow_stop": True}, "ticks": ticks + [{}, {}], "family": "pm_long" if long else "pm_random"}
+        if rng.random() < 0.1:
+            scn["cfg"]["boot0"] = sorted(rng.sample(range(w), rng.randint(1, w)))     # workers that crash while the pool is being spawned
+            scn["noconf"] = True
+        out.append(scn)
     return out
 
 
@@ -150,6 +157,8 @@ def run_check(prop: str, tier: str) -> int:
     for i, scn in enumerate(scns):          # every third history: the manager is built by the command-line route (run_worker)
         if i % 3 == 1 and not str(scn.get("family", "")).startswith("ledger:"):
             scn["cfg"] = dict(scn["cfg"], via="cli")
+        elif i % 4 == 3 and not str(scn.get("family", "")).startswith("ledger:"):
+            scn["cfg"] = dict(scn["cfg"], reload=True)      # development mode (--reload): supervision rules are the same
     traces = mbt.drive("engine.pm_check", "_drive_one", scns)
     verdicts = mbt.observe(traces, "ObsPm", shards=8 if q else 16)
     viol_n = 0
@@ -163,7 +172,7 @@ def run_check(prop: str, tier: str) -> int:
                                                  "scenario": {"cfg": scns[i]["cfg"], "ticks": scns[i]["ticks"]}})
                 rep.violation(path, f"clause {clause} false after event {idx} of {len(traces[i]['ev'])} (family {scns[i].get('family')})")
     ncf = 400 if q else 5000
-    idxs = list(range(0, len(traces), max(1, len(traces) // ncf)))[:ncf]
+    idxs = [i for i in range(0, len(traces), max(1, len(traces) // ncf)) if not scns[i].get("noconf")][:ncf]
     ctext = "SPECIFICATION TraceSpec\n" + const_text(sw, 100000, 100000, cfgs="Cfgs = {}") + "INVARIANT Progress\nPOSTCONDITION Done\nCHECK_DEADLOCK FALSE\n"
     try:
         cf = mbt.conform([traces[i] for i in idxs], "TracePm", ctext)
